@@ -3,7 +3,7 @@ from checks_path import *  # noqa
 from seq_common import run_seq, replay_seq
 
 PROPERTY = 'C01'
-PROPS = ['SalsaVerif.Props.C01']
+PROPS = ['SalsaVerif.Props.C01', 'SalsaVerif.Props.C01Core3']
 EXPLANATION = ('Soundness theorem of the Lean engine model `Core` (written function-by-function after fetch / maybe_changed_after / '
                'execute / backdate): for every well-formed program and EVERY history of writes, synthetic writes and requests, each '
                'request returns the from-scratch semantics. Proved for the fragment named in the theorem (`c01_run_sound_partial`: plain '
@@ -15,7 +15,7 @@ ASSUMPTIONS = ['determinism of tracked function bodies (programs of the generate
                'theorem covers the Core fragment; the remaining constructs of C01 rest on the oracle comparison (labelled partial)']
 
 def budget(ctx):
-    return (2000, 6000) if ctx.tier == 'quick' else (20000, 200000)
+    return (4000, 10000) if ctx.tier == 'quick' else (20000, 200000)
 
 def ties(ctx):
     a, b = budget(ctx)
@@ -29,7 +29,7 @@ def search(ctx, reason):
     for prof, n in (('full', 300000), ('core3', 200000), ('core', 100000)):
         t = run_seq(ctx, prof, n, seed_offset=77, tag='search-' + prof)
         for f in t.failures:
-            if f.kind == 'oracle':
+            if f.kind == 'oracle' and f.key not in listed_keys():
                 return f
     return None
 
